@@ -89,3 +89,13 @@ package ipc
 //@   ensures !open ==> isnil(result0) && result1 == mangos.ErrClosed && !called("Wait")
 //@   ensures open ==> called("Wait")
 //@   before call:Wait#1 assert !held(l.lock)
+
+// ---- round 9: a refused Listen leaves nothing bound ----
+//@ func (*listener).Listen
+//@   ghost e1 = result1 at call:ListenUnix#1
+//@   ghost e2 = result1 at call:ListenUnix#2
+//@   ensures !isnil(result) && called("ListenUnix") && !called("removeStaleIPC") ==> !isnil(e1)
+//@   ensures !isnil(result) && called("removeStaleIPC") ==> !isnil(e2)
+//@
+//@ func isSyscallError
+//@   ensures isnil(err) ==> !result
